@@ -349,6 +349,40 @@ def canon_implied(text, names, kind, shid):
     return re.sub(r"[A-Za-z_]\w*", rep, t)
 
 
+def parse_iface_guards(text):
+    """{generic name: (block guard or None, [(procedure, guard or None)])} of the named interface blocks of one module"""
+    text = re.sub(r"&\s*\n\s*&?", "", text)
+    lines = [l.strip() for l in text.split("\n")]
+    res = {}
+    i = 0
+    while i < len(lines):
+        m = re.fullmatch(r"interface (\w+)", lines[i])
+        if not m:
+            i += 1
+            continue
+        name = m.group(1)
+        j = i - 1
+        while j >= 0 and (lines[j] == "" or lines[j].startswith("!")):
+            j -= 1
+        block = lines[j][1:] if j >= 0 and lines[j].startswith("#") and not lines[j].startswith("#endif") else None
+        members, guard = [], None
+        i += 1
+        while i < len(lines) and not re.fullmatch(r"end interface( \w+)?", lines[i]):
+            l = lines[i]
+            if l.startswith("#endif"):
+                guard = None
+            elif l.startswith("#"):
+                guard = l[1:]
+            else:
+                mm = re.fullmatch(r"module procedure (\w+)", l)
+                if mm:
+                    members.append((mm.group(1).lower(), guard))
+            i += 1
+        if members:
+            res[name.lower()] = (block, members)
+    return res
+
+
 class Tie:
     """collects driver requests for one batch of libraries, then compares"""
 
@@ -496,6 +530,34 @@ class Tie:
                                     [c._PTR_F_C_index for c in mine], None))
                 if len(group) > 1:
                     self.n_dflt_generic = getattr(self, "n_dflt_generic", 0) + 1
+        # ---- preprocessor guards of the written generic interfaces: block guard and per-member guard vs the model
+        # (members and their node_cpp_if are taken from the real nodes; membership itself is tied below)
+        byimpl = {}
+        for _m, _c, n in fns:
+            if n.wrap.fortran:
+                byimpl.setdefault(str(getattr(n.fmtdict, "F_name_impl", "")).lower(), []).append(n)
+        for fn in sorted(os.listdir(outdir)):
+            if not (fn.endswith(".f") or fn.endswith(".f90") or fn.endswith(".F")):
+                continue
+            for gname, (block, members) in sorted(parse_iface_guards(open(os.path.join(outdir, fn)).read()).items()):
+                nodes = [byimpl.get(p, [None])[0] if len(byimpl.get(p, [])) == 1 else None for p, _g in members]
+                if any(x is None for x in nodes):
+                    continue
+                gid = lambda g: 0 if not g else self.tn("cpp:" + g)
+                real_guards = [x.cpp_if or getattr(x.parent, "cpp_if", None) for x in nodes]
+                self.lines.append("ifguards " + ",".join(str(gid(g)) for g in real_guards))
+                self.expect.append(("ifguards", "%s:interface %s" % (tag, gname),
+                                    (gid(block), [gid(g) for _p, g in members]), any(real_guards)))
+        # ---- assumed-rank variants: one fortran_generic entry per rank F_assumed_rank_min..F_assumed_rank_max
+        for n in index:
+            gl = n.fortran_generic
+            if not isinstance(gl, list) or not gl or n._PTR_C_CXX_index is not None or n._generated == "has_default_arg":
+                continue
+            rk = [re.fullmatch(r"_(\d+)d", str(g.function_suffix)) for g in gl]
+            if not all(rk) or not any(a.metaattrs["assumed-rank"] for a in n.ast.params):
+                continue
+            self.lines.append("ranks %d %d" % (n.options.F_assumed_rank_min, n.options.F_assumed_rank_max))
+            self.expect.append(("ranks", "%s:%s" % (tag, n.declgen or n.decl), [int(m.group(1)) for m in rk], None))
         # ---- generic interfaces: model over nodes in emission order
         emis = [n for _m, _c, n in fns]
         if emis and all(id(n) in pos for n in emis):
@@ -561,6 +623,21 @@ class Tie:
                 if got != exp:
                     bad.append({"kind": kind, "fn": tag, "model": got, "real": exp})
                 ctx.nontrivial(("implied", form, variant, got))
+            elif kind == "ifguards":
+                self.n_ifg = getattr(self, "n_ifg", 0) + 1
+                b, ms = got.split(" ")
+                model = (int(b), [] if ms == "-" else [int(x) for x in ms.split(",")])
+                if model != (exp[0], exp[1]):
+                    bad.append({"kind": kind, "fn": tag, "model_block_and_member_guards": model, "written": exp})
+                if extra:
+                    self.n_ifg_guarded = getattr(self, "n_ifg_guarded", 0) + 1
+                    ctx.nontrivial(("ifguards", tag))
+            elif kind == "ranks":
+                self.n_ranks = getattr(self, "n_ranks", 0) + 1
+                model = [] if got == "-" else [int(x) for x in got.split(",")]
+                if model != exp:
+                    bad.append({"kind": kind, "fn": tag, "model_ranks": model, "real_fortran_generic_ranks": exp})
+                ctx.nontrivial(("ranks", tuple(exp)))
             elif kind == "gtargets":
                 self.n_gt = getattr(self, "n_gt", 0) + 1
                 model = [] if got == "-" else [int(x) for x in got.split(",")]
@@ -590,6 +667,8 @@ class Tie:
                     ctx.nontrivial(("generics", tag))
         return bad, {"assembled_functions": n_asm, "routes": n_route, "generic_tables": n_gen, "generic_clone_routings": getattr(self, "n_gt", 0),
                      "multi_hop_routes": getattr(self, "n_multihop", 0),
+                     "generic_interface_guard_checks": getattr(self, "n_ifg", 0), "of_them_with_a_cpp_if": getattr(self, "n_ifg_guarded", 0),
+                     "assumed_rank_ranges": getattr(self, "n_ranks", 0),
                      "implied_expressions": getattr(self, "n_implied", 0), "implied_forms": getattr(self, "implied_forms", {}),
                      "generic_routings_of_default_argument_clones": getattr(self, "n_dflt_generic", 0), "skipped": self.skipped,
                      "f_entries_reached": sorted(x for x in self.entries_f if x), "c_entries_reached": sorted(x for x in self.entries_c if x)}
